@@ -28,11 +28,20 @@ RULE = ("cases = (format, bytes) for the five formats newick | multi (multi-Newi
         "div / num_date values), values of another type (number/string/array/object/bool swapped), empty arrays and objects, removed "
         "and duplicated keys, children nested up to 400 deep; empty <clade/>, missing or empty <name>, non-numeric or empty "
         "<branch_length>/<confidence>, empty and nested empty elements (taxonomy, id, code), unknown and renamed elements, "
-        "duplicated children, odd attributes; deep nesting (depth 500..5000 quick; up to "
+        "duplicated children, odd attributes; very large magnitude integers (2^31, 2^32, 2^62, 2^63-1, 2^63, 2^64, 10^9..10^30, "
+        "negative ones) at EVERY integer-valued position of each grammar (kind hugeint:<position>): Nexus DIMENSIONS NTAX= of "
+        "the TAXA block, NTAX= and NCHAR= of the DATA/CHARACTERS block (before MATRIX, either block order), TRANSLATE indices, "
+        "numeric tree names and labels, supports, lengths, numbers in comments; Newick lengths, supports, p-values, names; "
+        "PhyloXML branch_length, confidence, taxonomy ids, rooted; Nextstrain div, num_date, confidence, lbi, entropy, "
+        "version; and one integer token of random valid documents; deep nesting (depth 500..5000 quick; up to "
         "20000 thorough, with a relaxed watchdog: indexing is quadratic in the depth). Plus a fixed list of hand-written witnesses (the three crashes found on the unchanged code "
         "among them). A case is non-trivial when the model/implementation comparison ran (modelled formats) or a tree was "
         "delivered (PhyloXML/Nextstrain); distinct = distinct case text")
-TRUSTED = ["watchdog: each entry point runs in a goroutine under recover, 5 s timer; the input reader also stops a caller that "
+TRUSTED = ["the readers run in a child process of the worker (same binary, kept alive from case to case) whose address space is "
+           "capped (RLIMIT_AS 4 GiB, harness/worker/c02.go): an allocation sized from the input ends the child with 'fatal error: "
+           "out of memory'; the worker reports exactly that case as class panic 'the reader process died: ...' (an oracle "
+           "failure with this input as the witness), starts a new child and goes on; it never dies itself",
+           "watchdog: each entry point runs in a goroutine under recover, 5 s timer; the input reader also stops a caller that "
            "asks for more input 2,000,000 times after the end of the input (reported as hang)",
            "utils.ReadMultiTrees' reader goroutine cannot be put under recover: its Newick loop is replicated in the handler "
            "(same library calls) and the real function is called only when the replica neither panicked nor hung; both must agree",
@@ -469,6 +478,70 @@ def gen_xml_struct(rng):
         phys.append(["phylogeny", {"rooted": rng.choice(["true", "false"])}, [px_elem(rng, rand_tree(rng), None)]])
     return xml_struct(rng, ["phyloxml", {}, phys])
 
+# ---------------------------------------------------------------- very large magnitude integers at every integer position
+HUGE = [2**31, 2**32, 2**62, 2**63 - 1, 2**63, 2**64, 10**9, 10**11, 10**12, 10**13, 10**30,
+        -(2**31), -(2**63), -(2**63) - 1, -(10**13), 4611686018427387904, 99999999999999999999]
+
+NEXUS_INT_DEFAULTS = {"taxa_ntax": "3", "data_ntax": "3", "data_nchar": "4", "idx0": "0", "idx1": "1", "idx2": "2",
+                      "tree_name": "1", "support": "1", "length": "2", "comment": "7", "label": "c"}
+
+def nexus_int_doc(vals, data_first=False, keyword="DATA"):
+    v = dict(NEXUS_INT_DEFAULTS); v.update(vals)
+    lab = v["label"]
+    taxa = "BEGIN TAXA;\n DIMENSIONS NTAX=%s;\n TAXLABELS a b %s;\nEND;\n" % (v["taxa_ntax"], lab)
+    data = ("BEGIN %s;\n  DIMENSIONS NTAX=%s NCHAR=%s;\n  FORMAT DATATYPE=dna MISSING=* GAP=-;\n  MATRIX\na ACGT\nb ACGA\n%s ACTT\n;\nEND;\n"
+            % (keyword, v["data_ntax"], v["data_nchar"], lab if not lab.lstrip("+-").isdigit() else "c"))
+    trees = ("BEGIN TREES;\n  TRANSLATE\n   %s a,\n   %s b,\n   %s %s\n  ;\n  TREE %s = [&R] [%s] ((%s:1,%s:1)%s:%s,%s:2);\nEND;\n"
+             % (v["idx0"], v["idx1"], v["idx2"], lab, v["tree_name"], v["comment"], v["idx0"], v["idx1"], v["support"], v["length"], v["idx2"]))
+    blocks = [data, taxa, trees] if data_first else [taxa, data, trees]
+    return "#NEXUS\n" + "".join(blocks)
+
+def huge_cases(rng, tier):
+    """every integer-valued position of each grammar x every very large value"""
+    out = []
+    def add(fmt, text, pos, h):
+        out.append(case(fmt, text, "hugeint:" + pos, timeout_ms=5000))
+    for h in HUGE:
+        hs = str(h)
+        for pos in ["taxa_ntax", "data_ntax", "data_nchar", "idx0", "idx2", "tree_name", "support", "length", "comment", "label"]:
+            add("nexus", nexus_int_doc({pos: hs}, data_first=(pos.startswith("data") and h % 2 == 0),
+                                       keyword="CHARACTERS" if h % 3 == 0 else "DATA"), pos, h)
+        add("nexus", nexus_int_doc({"data_ntax": hs, "data_nchar": hs, "taxa_ntax": hs}), "all_dimensions", h)
+        # Newick / multi-Newick: length, support, p-value, names
+        for pos, txt in [("length", "((a:1,b:%s):1,c:2);" % hs), ("support", "((a:1,b:1)%s:1,c:2);" % hs),
+                         ("pvalue", "((a:1,b:1)0.5/%s:1,c:2);" % hs), ("name", "((a:1,%s:1):1,c:2);" % hs),
+                         ("root_length", "((a:1,b:1):1,c:2):%s;" % hs), ("inner_name", "((a:1,b:1)x%s:1,c:2);" % hs)]:
+            add("newick", txt, pos, h)
+            add("multi", txt + "\n(a,b);\n", pos, h)
+        # PhyloXML: every numeric element and attribute
+        for pos, inner in [("branch_length", "<name>a</name><branch_length>%s</branch_length>" % hs),
+                           ("confidence", "<confidence type=\"bootstrap\">%s</confidence><clade><name>a</name></clade><clade><name>x</name></clade>" % hs),
+                           ("taxonomy_id", "<name>a</name><taxonomy><id provider=\"ncbi\">%s</id><code>A</code></taxonomy>" % hs),
+                           ("taxonomy_Id", "<name>a</name><taxonomy><id><Id>%s</Id></id></taxonomy>" % hs),
+                           ("name", "<name>%s</name>" % hs)]:
+            add("phyloxml", "<phyloxml><phylogeny rooted=\"true\"><clade><clade>%s</clade><clade><name>b</name><branch_length>1</branch_length></clade></clade></phylogeny></phyloxml>" % inner, pos, h)
+        add("phyloxml", "<phyloxml><phylogeny rooted=\"%s\"><clade><name>a</name></clade></phylogeny></phyloxml>" % hs, "rooted", h)
+        # Nextstrain: every number
+        for pos, node in [("div", '{"name":"a","node_attrs":{"div":%s}}' % hs),
+                          ("num_date", '{"name":"a","node_attrs":{"div":1,"num_date":{"value":%s,"confidence":[1,2]}}}' % hs),
+                          ("confidence", '{"name":"a","node_attrs":{"div":1,"num_date":{"value":2020,"confidence":[%s,%s]}}}' % (hs, hs)),
+                          ("lbi", '{"name":"a","node_attrs":{"div":1,"lbi":{"value":%s}}}' % hs),
+                          ("entropy", '{"name":"a","node_attrs":{"div":1,"region":{"value":"x","entropy":%s,"confidence":{"x":%s}}}}' % (hs, hs)),
+                          ("name", '{"name":%s}' % hs)]:
+            add("nextstrain", '{"version":"v2","tree":{"name":"r","node_attrs":{"div":0},"children":[%s,{"name":"b","node_attrs":{"div":%s}}]}}' % (node, hs if pos == "div" else "1"), pos, h)
+        add("nextstrain", '{"version":%s,"tree":{"name":"r"}}' % hs, "version", h)
+    # and in random valid documents: one integer token replaced
+    import re
+    for _ in range({"quick": 60, "thorough": 3000, "search": 30}[tier]):
+        fmt = rng.choice(["nexus", "nexus", "nexus", "multi", "newick", "phyloxml", "nextstrain"])
+        d = GENS[fmt](rng)
+        ms = list(re.finditer(r"(?<![\w.])\d+(?![\w.])", d))
+        if not ms:
+            continue
+        m = rng.choice(ms)
+        out.append(case(fmt, d[:m.start()] + str(rng.choice(HUGE)) + d[m.end():], "hugeint:random"))
+    return out
+
 GENS = {"newick": gen_newick, "multi": gen_multi, "nexus": gen_nexus, "phyloxml": gen_phyloxml, "nextstrain": gen_nextstrain}
 
 # ---------------------------------------------------------------- damage
@@ -668,4 +741,9 @@ def gen(rng, tier):
         out.insert(min(len(out), j * 200 + 1), dc)
     for j, bc in enumerate(bigs):
         out.insert(min(len(out), j * 200 + 7), bc)
+    # spread over the chunks: a worker that dies on one of them is restarted by the runner for the cases that follow
+    hs = huge_cases(rng, tier)
+    step = max(1, len(out) // max(1, len(hs)))
+    for j, hc in enumerate(hs):
+        out.insert(min(len(out), j * (step + 1) + 3), hc)
     return out
